@@ -158,6 +158,9 @@ func c20Run(line string) string {
 		}
 		return strconv.FormatUint(uint64(threshold(VoterWeight(n))), 10)
 	}
+	if len(f) == 3 && f[0] == "bf" {
+		return c20BF(f[1], f[2])
+	}
 	c, ok := c20Parse(line)
 	if !ok {
 		return "bad-op"
